@@ -228,7 +228,15 @@ def body_zero(case):
         aa, bb = list(a), list(b)
         aa[k], bb[k] = lo, hi
         m = float(model.mass(list(aa), list(bb)))
-        r = ref.mass(aa, bb)
+        if hi == 0.0:
+            # (lo, 0] contains the hyperplane x_k = 0 (jumps of the other coordinates alone, which carry mass when the
+            # k-th margin has finite activity): it is the straddling rectangle (lo, y] minus the positive piece (0, y]
+            a2, b2, a3, b3 = list(aa), list(bb), list(aa), list(bb)
+            b2[k] = -lo
+            a3[k], b3[k] = 0.0, -lo
+            r = ref.mass(a2, b2) - ref.mass(a3, b3)
+        else:
+            r = ref.mass(aa, bb)
         g = float(model._mass_nd(list(aa), list(bb)))
         what = None
         if not math.isfinite(m) or m < -tol(m):
